@@ -16,3 +16,29 @@ Fixpoint text_lookup (t : list (textkind * (pyval * option jstring))) (k : textk
   | [] => None
   | (k', (v', r)) :: rest => if tk_eqb k k' && pyval_eqb v v' then r else text_lookup rest k v
   end.
+
+From KV Require Import Model.Sem Model.SchemaSat.
+
+Fixpoint re_tbl_search (t : list (jstring * (list Z * bool))) (p : jstring) (s : list Z) : bool :=
+  match t with
+  | [] => false
+  | (p', (s', b)) :: r => if jstr_eqb p p' && jstr_eqb s s' then b else re_tbl_search r p s
+  end.
+
+(* C11: (verdict of the model schema under the model's sat, verdict of the model validator) *)
+Definition c11_eval (E : env) (text : textkind -> pyval -> option jstring)
+           (re : jstring -> list Z -> bool) (named : option (jstring * jstring)) (fuel : nat)
+           (v : validator) (x : pyval) : option bool * bool :=
+  (match named with
+   | None =>
+       match to_schema text None v with
+       | Ok j => Some (sat re (fun _ _ => false) j x)
+       | Exn _ => None
+       end
+   | Some (name, ref) =>
+       match to_schema text (Some (ref ++ name)) v with
+       | Ok j => Some (sat_fuel re fuel j j x)
+       | Exn _ => None
+       end
+   end,
+   match run E Sync fuel v x with OValid _ => true | _ => false end).
